@@ -634,6 +634,105 @@ func gappedRow(t *rapid.T, l int) string {
 	return string(b)
 }
 
+// structuredGapped builds an alignment around a reference row made of codons: reference codons
+// are split by 1-6 gap columns (after the first or second base) or preceded by all-gap-in-the-
+// reference columns; every other row is, block by block, a byte-identical copy of the reference
+// block, the reference block with some or all of its gap columns filled (in-frame and
+// out-of-frame insertions), the reference block with one base changed, a deletion, or random;
+// whole rows may be copies of the reference. Returns the rows, the reference first.
+func structuredGapped(t *rapid.T, n int) []string {
+	k := rapid.IntRange(1, 8).Draw(t, "codons")
+	var blocks []string
+	for i := 0; i < k; i++ {
+		cod := gen.SeqN(t, "ACGT", 3)
+		if rapid.IntRange(0, 3).Draw(t, "anycodon") == 0 {
+			cod = genNt(t, 3, false)
+		}
+		b := ""
+		if rapid.IntRange(0, 4).Draw(t, "pre") == 0 {
+			b = strings.Repeat("-", rapid.IntRange(1, 6).Draw(t, "npre"))
+		}
+		switch rapid.IntRange(0, 5).Draw(t, "split") {
+		case 0, 1, 2:
+			p := rapid.IntRange(1, 2).Draw(t, "sp")
+			b += cod[:p] + strings.Repeat("-", rapid.IntRange(1, 6).Draw(t, "g")) + cod[p:]
+		case 3:
+			b += cod[:1] + strings.Repeat("-", rapid.IntRange(1, 4).Draw(t, "g1")) + cod[1:2] + strings.Repeat("-", rapid.IntRange(1, 4).Draw(t, "g2")) + cod[2:]
+		default:
+			b += cod
+		}
+		blocks = append(blocks, b)
+	}
+	tail := gen.SeqN(t, "ACGT-", rapid.IntRange(0, 2).Draw(t, "tail"))
+	rows := make([]string, n)
+	rows[0] = strings.Join(blocks, "") + tail
+	for r := 1; r < n; r++ {
+		if rapid.IntRange(0, 4).Draw(t, "wholecopy") == 0 {
+			rows[r] = rows[0]
+			continue
+		}
+		var sb strings.Builder
+		for _, b := range blocks {
+			switch rapid.IntRange(0, 7).Draw(t, "blk") {
+			case 0, 1, 2: // identical to the reference over this codon
+				sb.WriteString(b)
+			case 3, 4: // insertion: fill some or all of the gap columns
+				bb := []byte(b)
+				var gaps []int
+				for j := range bb {
+					if bb[j] == '-' {
+						gaps = append(gaps, j)
+					}
+				}
+				if len(gaps) > 0 {
+					f := rapid.IntRange(1, len(gaps)).Draw(t, "fill")
+					if rapid.Bool().Draw(t, "fillall") {
+						f = len(gaps)
+					}
+					for _, j := range gaps[:f] {
+						bb[j] = "ACGT"[rapid.IntRange(0, 3).Draw(t, "fb")]
+					}
+				}
+				sb.WriteString(string(bb))
+			case 5: // one base changed
+				bb := []byte(b)
+				j := rapid.IntRange(0, len(bb)-1).Draw(t, "mj")
+				bb[j] = "ACGT-"[rapid.IntRange(0, 4).Draw(t, "mb")]
+				sb.WriteString(string(bb))
+			case 6: // deletion
+				sb.WriteString(strings.Repeat("-", len(b)))
+			default:
+				sb.WriteString(gen.SeqN(t, "ACGT-", len(b)))
+			}
+		}
+		sb.WriteString(gen.SeqN(t, "ACGT-", len(tail)))
+		rows[r] = sb.String()
+	}
+	return rows
+}
+
+// genGappedRows: the rows of a gapped case and the index of the reference row
+func genGappedRows(t *rapid.T, n, l int) ([]string, int) {
+	ref := rapid.IntRange(0, n-1).Draw(t, "ref")
+	rows := make([]string, n)
+	if rapid.IntRange(0, 2).Draw(t, "structured") != 0 {
+		st := structuredGapped(t, n)
+		rows[ref] = st[0]
+		k := 1
+		for i := range rows {
+			if i != ref {
+				rows[i] = st[k]
+				k++
+			}
+		}
+		return rows, ref
+	}
+	for i := range rows {
+		rows[i] = gappedRow(t, l)
+	}
+	return rows, ref
+}
+
 func genRef(t *rapid.T) refCase {
 	var c refCase
 	c.Code = rapid.SampledFrom(codeNames).Draw(t, "code")
@@ -641,18 +740,18 @@ func genRef(t *rapid.T) refCase {
 	n := rapid.IntRange(1, 5).Draw(t, "rows")
 	l := genLen(t, 36)
 	c.Ali.Alphabet = "nt"
-	for i := 0; i < n; i++ {
-		var s string
-		if c.Gapped {
-			s = gappedRow(t, l)
-		} else {
-			s = genNt(t, l, false)
+	if c.Gapped {
+		rows, ref := genGappedRows(t, n, l)
+		for i, s := range rows {
+			c.Ali.Rows = append(c.Ali.Rows, gen.Row{Name: fmt.Sprintf("s%d", i), Seq: s})
 		}
-		c.Ali.Rows = append(c.Ali.Rows, gen.Row{Name: fmt.Sprintf("s%d", i), Seq: s})
+		c.Ref = c.Ali.Rows[ref].Name
+		return c
 	}
-	if !c.Gapped {
-		c.Frame = rapid.IntRange(0, 2).Draw(t, "frame")
+	for i := 0; i < n; i++ {
+		c.Ali.Rows = append(c.Ali.Rows, gen.Row{Name: fmt.Sprintf("s%d", i), Seq: genNt(t, l, false)})
 	}
+	c.Frame = rapid.IntRange(0, 2).Draw(t, "frame")
 	c.Ref = c.Ali.Rows[rapid.IntRange(0, n-1).Draw(t, "ref")].Name
 	return c
 }
@@ -722,6 +821,38 @@ func judgeRef(c refCase, got []gen.Row, e error, o *pbt.Outcome) error {
 	}
 	if strings.Contains(refrow, "-") {
 		o.Class("gapped insertion-relative-to-reference")
+	}
+	// classes of the input: reference codons (three successive non-gap reference columns) that
+	// span 6 columns or more, and another row byte-identical to the reference over such a codon
+	var cols []int
+	for j := 0; j < len(refin); j++ {
+		if refin[j] != '-' {
+			cols = append(cols, j)
+		}
+	}
+	wide, wideSame, same := false, false, false
+	for i := 0; i+2 < len(cols); i += 3 {
+		a, b := cols[i], cols[i+2]+1
+		for _, r := range c.Ali.Rows {
+			if r.Name != c.Ref && r.Seq[a:b] == refin[a:b] {
+				same = true
+				if b-a >= 6 {
+					wideSame = true
+				}
+			}
+		}
+		if b-a >= 6 {
+			wide = true
+		}
+	}
+	if wide {
+		o.Class("gapped reference-codon-spans>=6-columns")
+	}
+	if same {
+		o.Class("gapped row-identical-to-reference-over-a-codon")
+	}
+	if wideSame {
+		o.Class("gapped row-identical-to-reference-over-a-wide-codon")
 	}
 	return nil
 }
@@ -796,19 +927,19 @@ func TestCLI(t *testing.T) {
 			n := rapid.IntRange(1, 4).Draw(t, "rows")
 			l := rapid.SampledFrom([]int{3, 4, 5, 6, 7, 10, 20, 33, 182}).Draw(t, "L")
 			c.Ref.Ali.Alphabet = "nt"
-			for i := 0; i < n; i++ {
-				s := ""
-				if c.Ref.Gapped {
-					s = gappedRow(t, l)
-				} else {
-					s = genNt(t, l, false)
+			if c.Ref.Gapped {
+				rows, ref := genGappedRows(t, n, l)
+				for i, s := range rows {
+					c.Ref.Ali.Rows = append(c.Ref.Ali.Rows, gen.Row{Name: fmt.Sprintf("s%d", i), Seq: s})
 				}
-				c.Ref.Ali.Rows = append(c.Ref.Ali.Rows, gen.Row{Name: fmt.Sprintf("s%d", i), Seq: s})
-			}
-			if !c.Ref.Gapped {
+				c.Ref.Ref = c.Ref.Ali.Rows[ref].Name
+			} else {
+				for i := 0; i < n; i++ {
+					c.Ref.Ali.Rows = append(c.Ref.Ali.Rows, gen.Row{Name: fmt.Sprintf("s%d", i), Seq: genNt(t, l, false)})
+				}
 				c.Ref.Frame = rapid.IntRange(0, 2).Draw(t, "frame")
+				c.Ref.Ref = c.Ref.Ali.Rows[rapid.IntRange(0, n-1).Draw(t, "ref")].Name
 			}
-			c.Ref.Ref = c.Ref.Ali.Rows[rapid.IntRange(0, n-1).Draw(t, "ref")].Name
 		case "codonalign":
 			c.CA = genCA(t)
 			// the protein file must be recognised as a protein file: start the first row of
